@@ -4,7 +4,7 @@ PROP = {
     "title": "Parse results do not depend on earlier parses",
     "engine": "E1",
     "level": "exploration",
-    "technique": "runtime monitor: differential oracle — every tree stored by the real Vfs (shared NodeCache) after a history of near-duplicate texts vs a fresh standalone parse with the same configuration",
+    "technique": "runtime monitor: differential oracle — every tree stored by the real Vfs (shared NodeCache) after a history of near-duplicate texts vs a fresh standalone parse with the same configuration; thorough adds Miri shards (parses through one shared rowan NodeCache interpreted for undefined behaviour, cached vs fresh trees compared)",
     "design_ref": "§4 C04",
     "rule": "cases = histories of 30 (quick) / 60 (thorough) set_file_content steps over 4 file slots built from near-duplicates of 1-3 corpus files (same text, token edits, moved lines, wrapped in do/function, appended statements), half of them with mid-history config switches (language level, require-like functions); "
             "after every step the stored tree's full debug rendering + error list is compared with a fresh parse; distinct = hash of the step texts; non-trivial = >= 4 steps",
@@ -15,3 +15,7 @@ PROP = {
     "level_text": "Real Vfs::set_file_content path (real Emmyrc::get_parse_config with the Vfs's NodeCache); ~100k (quick) step comparisons against fresh parses, including config switches mid-history.",
     "level_note": "Only the file set in each step is compared (trees of earlier files are immutable green trees).",
 }
+
+from miri_shard import custom_for  # noqa: E402
+
+custom = custom_for("C04")
